@@ -28,6 +28,7 @@ import (
 	"github.com/youchainhq/go-youchain/rlp"
 	"github.com/youchainhq/go-youchain/trie"
 	"math/big"
+	"sort"
 	"sync"
 )
 
@@ -108,7 +109,8 @@ func (st *StateDB) RemoveValidator(mainAddress common.Address) bool {
 		return false
 	}
 	val := value.(*Validator)
-	st.validatorJournal.append(validatorDeleteChange{address: &mainAddress, oldVal: val})
+	// journal a copy taken before the live object is marked deleted, so that a revert restores a usable record
+	st.validatorJournal.append(validatorDeleteChange{address: &mainAddress, oldVal: val.PartialCopy()})
 	val.deleted = true
 
 	st.decrValidatorsStat(val)
@@ -431,9 +433,18 @@ func (st *StateDB) GetWithdrawQueue() *WithdrawQueue {
 
 func (st *StateDB) RemoveWithdrawRecords(index []int) bool {
 	queue, _ := st.getWithdrawQueue()
-	removedRecords := queue.RemoveRecords(index)
-	for _, record := range removedRecords {
-		st.validatorJournal.append(&validatorDelWithdrawChange{address: &record.Validator, prev: record})
+	// Journal the removed records from the highest position down: the revert runs the entries
+	// last-in-first-out, i.e. in ascending position, and re-inserts every record where it was.
+	positions := append([]int(nil), index...)
+	sort.Sort(sort.Reverse(sort.IntSlice(positions)))
+	entries := make([]*validatorDelWithdrawChange, 0, len(positions))
+	for _, pos := range positions {
+		record := queue.Records[pos]
+		entries = append(entries, &validatorDelWithdrawChange{address: &record.Validator, prev: record, index: pos})
+	}
+	queue.RemoveRecords(index)
+	for _, entry := range entries {
+		st.validatorJournal.append(entry)
 	}
 	return true
 }
